@@ -227,7 +227,14 @@ def run_task(task):
 
         def on_path(e_, obs):
             res["paths"] += 1
-            claims, goals = H.judge(ctx, shape, obs)
+            saved_merge = core.MERGE[0]
+            core.MERGE[0] = True          # judging never forks: min/max/abs become ite terms
+            e_.judging = True
+            try:
+                claims, goals = H.judge(ctx, shape, obs)
+            finally:
+                core.MERGE[0] = saved_merge
+                e_.judging = False
             for g in goals:
                 res["goals"][g] = res["goals"].get(g, 0) + 1
             mine = [c for c in claims if c.prop in props]
@@ -300,7 +307,8 @@ def run_task(task):
         deadline = opts.get("deadline")
         first = len(prefixes) == 1 and prefixes[0] == []
         n, left = e.explore(fn, on_path, prefixes=prefixes,
-                            max_paths=opts.get("first_task_paths", 30) if first else opts.get("task_paths", 1500),
+                            max_paths=(eo.get("first_task_paths") or opts.get("first_task_paths", 30)) if first
+                            else (eo.get("task_paths") or opts.get("task_paths", 1500)),
                             deadline=deadline)
         cov.stop()
         res["funcs"] = sorted(cov.seen)
@@ -308,9 +316,7 @@ def run_task(task):
         res["stats"] = e.stats()
         M.restore()
         return res, left
-    except core.PathAbort:
-        raise
-    except Exception as ex:
+    except BaseException as ex:
         res["errors"].append(f"{hname} {json.dumps(shape, sort_keys=True)}: {type(ex).__name__}: {ex}\n"
                              + traceback.format_exc()[-1500:])
         return res, []
